@@ -175,7 +175,10 @@ class MessagePackDocument(HierDictDocument):
 
         mrs, = ctx.in_body_doc.keys()
         if not six.PY2 and isinstance(mrs, bytes):
-            mrs = mrs.decode(self.key_encoding)
+            try:
+                mrs = mrs.decode(self.key_encoding)
+            except UnicodeDecodeError as e:
+                raise MessagePackDecodeError(str(e))
 
         return '{%s}%s' % (self.app.interface.get_tns(), mrs)
 
@@ -261,20 +264,26 @@ class MessagePackRpc(MessagePackDocument):
 
         if not six.PY2:
             if isinstance(msgname_or_error, bytes):
-                msgname_or_error = msgname_or_error.decode(
+                try:
+                    msgname_or_error = msgname_or_error.decode(
                                                    self.default_string_encoding)
+                except UnicodeDecodeError as e:
+                    raise MessagePackDecodeError(str(e))
 
         if msgtype == MessagePackRpc.MSGPACK_REQUEST:
-            assert message == MessagePackRpc.REQUEST
+            if message != MessagePackRpc.REQUEST:
+                raise MessagePackDecodeError("Unexpected request message")
 
         elif msgtype == MessagePackRpc.MSGPACK_RESPONSE:
-            assert message == MessagePackRpc.RESPONSE
+            if message != MessagePackRpc.RESPONSE:
+                raise MessagePackDecodeError("Unexpected response message")
 
         elif msgtype == MessagePackRpc.MSGPACK_ERROR:
-            assert message == MessagePackRpc.RESPONSE
+            if message != MessagePackRpc.RESPONSE:
+                raise MessagePackDecodeError("Unexpected error message")
 
         elif msgtype == MessagePackRpc.MSGPACK_NOTIFY:
-            raise NotImplementedError()
+            raise MessagePackDecodeError("Notifications are not supported")
 
         else:
             raise MessagePackDecodeError("Unknown message type %r" % msgtype)
